@@ -446,6 +446,8 @@ func (x *Exec) wfAstFieldPlain(st *State, key, ref string, val Term) {
 	case "ast.ForStmt.Init", "ast.ForStmt.Post", "ast.SwitchStmt.Init", "ast.TypeSwitchStmt.Init", "ast.IfStmt.Init", "ast.TypeSwitchStmt.Assign":
 		// simple statements: absent, or a proper statement that is not a block
 		st.assume(sOr(sEq(val.S, "nilIface"), sAnd("(ProperStmt "+val.S+")", sNot(sEq("(itag "+val.S+")", "K_BlockStmt")))))
+		// Go grammar: SimpleStmt = ExpressionStmt | SendStmt | IncDecStmt | Assignment | ShortVarDecl (an empty one is absent)
+		st.assume(sOr(sEq(val.S, "nilIface"), sEq("(itag "+val.S+")", "K_ExprStmt"), sEq("(itag "+val.S+")", "K_SendStmt"), sEq("(itag "+val.S+")", "K_IncDecStmt"), sEq("(itag "+val.S+")", "K_AssignStmt")))
 		if key != "ast.IfStmt.Init" && key != "ast.TypeSwitchStmt.Assign" {
 			// A-pass0: pass 0 hoisted every `:=` initialiser of a for/switch/type-switch out of the statement
 			// (and Go's grammar forbids `:=` in a post statement)
